@@ -1,20 +1,22 @@
-(** C12 — results depend only on explicit inputs.  The models of expr_simp, eval_expr and eval_instr are Gallina
-    FUNCTIONS of their explicit arguments: the same arguments give the same answer after any history.  What the
-    check adds is that the implementation agrees with these functions inside arbitrary call histories. *)
+(** C12 — results depend only on explicit inputs (no hidden state between calls).  Property theorems only.
+    The models of expr_simp, eval_expr and eval_instr are Gallina functions of their explicit arguments; the one extra parameter
+    they carry, the fuel that stands for Python's recursion depth and loop count, is shown NOT to be a hidden input: once a
+    result is returned, any larger fuel returns the same result, so two successful runs agree whatever their fuel.
+    The property itself is about the implementation's hidden state (per-object memo flags, module-level caches, on-disk parser
+    tables), which a pure model does not have: it is decided by the call-history differential of harness/p_c12.py, in which the
+    implementation must agree with these functions inside arbitrary call histories.  The recorded defect (is_eval flag set on
+    shared register objects) is exhibited below as a value the pure model computes and the flagged implementation does not. *)
 From Coq Require Import ZArith List Bool String.
-From Mx Require Import Expr Simp EvalAbs.
+From Mx Require Import Expr Simp EvalAbs MachineProofs.
 Import ListNotations.
 
-Theorem C12_simp_function_of_input : forall fuel e1 e2, e1 = e2 -> simp fuel e1 = simp fuel e2.
-Proof. intros; subst; reflexivity. Qed.
-Print Assumptions C12_simp_function_of_input.
+Theorem C12_more_fuel_same_result : forall f f' e r, (f <= f')%nat -> simp f e = Ok r -> simp f' e = Ok r.
+Proof. exact simp_fuel_irrelevant. Qed.
+Print Assumptions C12_more_fuel_same_result.
+Theorem C12_successful_runs_agree : forall f f' e r r', simp f e = Ok r -> simp f' e = Ok r' -> r = r'.
+Proof. exact simp_deterministic_in_fuel. Qed.
+Print Assumptions C12_successful_runs_agree.
 
-Theorem C12_eval_function_of_state_and_input : forall fuel s1 s2 e1 e2, s1 = s2 -> e1 = e2 -> eval_expr fuel s1 e1 = eval_expr fuel s2 e2.
-Proof. intros; subst; reflexivity. Qed.
-Print Assumptions C12_eval_function_of_state_and_input.
-
-(** the recorded defect: with the per-object is_eval flag (outside these pure models) the implementation returns a
-    register unevaluated; the pure model evaluates it *)
 Example C12_pure_eval_of_bound_register :
   eval_expr 10 (Pool [(EId "eax" 32 true false, EInt false 32 5)] []) (EId "eax" 32 true false) = inl (Ok (EInt false 32 5)).
 Proof. vm_compute. reflexivity. Qed.
